@@ -32,11 +32,25 @@ class Module:
         self.tree = ast.parse(src, filename=relpath)
         normalise_comparisons(self.tree)
         normalise_if_polarity(self.tree)
+        from . import localnames, normalise
+        normalise.aug_assign(self.tree)
+        normalise.merge_nested_ifs(self.tree)
         self.funcs = {}  # qualname -> FunctionDef
         self.classes = {}  # qualname -> ClassDef
         self._index(self.tree, "", None)
-        from . import localnames
+        known = normalise.reference_functions().get(relpath)
+        self.helpers_inlined = normalise.inline_new_helpers(self, known)
+        if self.helpers_inlined:
+            self.funcs, self.classes = {}, {}
+            self._index(self.tree, "", None)
         self.locals_recovered = localnames.recover(self)
+        ref_locals = localnames.reference().get(relpath)
+        self.locals_propagated = 0
+        if ref_locals is not None:
+            for q, fn in self.funcs.items():
+                self.locals_propagated += normalise.propagate_new_locals(fn, set((ref_locals.get(q) or {}).values()))
+            if self.locals_propagated:
+                normalise.merge_nested_ifs(self.tree)
         for node in ast.walk(self.tree):
             for child in ast.iter_child_nodes(node):
                 child._parent = node
